@@ -18,6 +18,7 @@ type Clause struct {
 	Label  string
 	Serves []string
 	Using  []SExpr // lemma instances to bring in when proving this clause
+	Assumed string // non-empty: this postcondition is not proved against the body (reason); callers still rely on it
 	File   string
 	Line   int
 }
@@ -257,6 +258,13 @@ func parseBindersLoose(s string) ([]SBinder, error) {
 
 func (ps *PkgSpec) parseClause(text string, l rawLine) (*Clause, error) {
 	c := &Clause{File: l.file, Line: l.line}
+	// `ensures assumed[reason] label: expr`: a postcondition that is trusted while the rest of the body is verified
+	if strings.HasPrefix(text, "assumed[") {
+		if j := strings.Index(text, "]"); j > 0 {
+			c.Assumed = text[len("assumed["):j]
+			text = strings.TrimSpace(text[j+1:])
+		}
+	}
 	// using
 	if i := strings.LastIndex(text, " using "); i >= 0 {
 		us := text[i+7:]
